@@ -114,4 +114,59 @@ theorem firstBadChunk_none_of_ascii (bs : List Nat) (h : ∀ b ∈ bs, b < 128) 
     simp [this]
   | case3 bs hshort => rfl
 
+/-! ### the loop since 0bc4e6f (`repairedPairs`) -/
+
+theorem forget_map {α β : Type} (f : α → β) (o : Out α) : (o.map f).forget = (o.forget).map f := by
+  cases o <;> rfl
+
+theorem repairedPairs_not_panic (plus : Bool) (bs : List Nat) : (repairedPairs plus bs).isPanic = false := by
+  fun_induction repairedPairs plus bs with
+  | case1 a b r h => rfl
+  | case2 a b r h hn => rfl
+  | case3 a b r h v hv ih => simp [map_isPanic, ih]
+  | case4 bs h => rfl
+
+/-- the two-step loop of the code (UTF-8 test, then radix parse) has the outcome of the
+nibble decoder on every input (only the wording of the error can differ) -/
+theorem repairedPairs_forget (plus : Bool) (bs : List Nat) :
+    (repairedPairs plus bs).forget = (decodePairs plus bs).forget := by
+  fun_induction repairedPairs plus bs with
+  | case1 a b r hbad =>
+    have hb : utf8Ok2 a b = false := by simpa using hbad
+    simp [decodePairs, pairVal_none_of_bad plus a b hb, Out.forget]
+  | case2 a b r hok hnone => simp [decodePairs, hnone]
+  | case3 a b r hok v hv ih => simp [decodePairs, hv, forget_map, ih]
+  | case4 bs hshort =>
+    unfold decodePairs
+    split
+    · rename_i a b r
+      exact absurd rfl (hshort a b r)
+    all_goals rfl
+
+/-- wherever the original loop does not panic it IS the repaired loop (same value, same error) -/
+theorem legacyPairs_eq_repaired (plus : Bool) (bs : List Nat) (h : legacyPairs plus bs ≠ .panic) :
+    legacyPairs plus bs = repairedPairs plus bs := by
+  fun_induction legacyPairs plus bs with
+  | case1 a b r hbad => simp at h
+  | case2 a b r hok hnone =>
+    have hb : utf8Ok2 a b = true := by simpa using hok
+    simp [repairedPairs, hb, hnone]
+  | case3 a b r hok v hv ih =>
+    have hb : utf8Ok2 a b = true := by simpa using hok
+    have hr : legacyPairs plus r ≠ .panic := by
+      intro hp
+      apply h
+      simp [hp, Out.map]
+    simp [repairedPairs, hb, hv, ih hr]
+  | case4 bs hshort =>
+    unfold repairedPairs
+    split
+    · rename_i a b r
+      exact absurd rfl (hshort a b r)
+    all_goals rfl
+
+theorem forget_bindOut {α β : Type} (o o' : Out α) (f : α → Out β) (h : o.forget = o'.forget) :
+    (bindOut o f).forget = (bindOut o' f).forget := by
+  cases o <;> cases o' <;> simp_all [Out.forget, bindOut]
+
 end SL.CursorBytes
